@@ -222,10 +222,27 @@ func (p *primitivizer) site(key annotation.Key, isDeep bool) primitiveSite {
 		PkgPath:    pkgRepr,
 		Repr:       key.String(),
 		IsDeep:     isDeep,
-		Exported:   key.Object().Exported(),
+		Exported:   visibleDownstream(obj),
 		ObjectPath: objPath,
 		Position:   position,
 	}
+}
+
+// visibleDownstream returns true if downstream packages can create constraints on the sites of
+// the given object, i.e., if the sites of the object must be exported. Besides the exported
+// objects, these are the non-exported package-level named types: values of such a type can be
+// handed to other packages (e.g., as the result of an exported function), and their deep
+// nilability is a site of the type itself (this is also why non-exported package-level types do
+// have an object path, unlike any other non-exported object).
+func visibleDownstream(obj types.Object) bool {
+	if obj.Exported() {
+		return true
+	}
+	if _, ok := obj.(*types.TypeName); ok {
+		pkg := obj.Pkg()
+		return pkg != nil && pkg.Scope().Lookup(obj.Name()) == obj
+	}
+	return false
 }
 
 // objectPath returns the objectpath.Path for the given object, using fast paths where possible
